@@ -53,7 +53,11 @@ def cases(tier, seed):
         meshes.get_device(d, seed)
         out.append(Case(f"rows:{d}", kind="rows", dev=d, seed=seed, refreshes=BOUNDS[tier]["refreshes"]))
         for v in ("zero", "sym", "none"):
-            out.append(Case(f"step:{d}:v={v}", kind="step", dev=d, v=v, seed=seed))
+            out.append(Case(f"step:{d}:v={v}", kind="step", dev=d, v=v, seed=seed, arbitrary=False))
+        # a run may start from a seed solution whose terminal values differ from terminal_psi:
+        # from *any* state the terminals carry the configured value after one step
+        out.append(Case(f"step-from-any-state:{d}:v=zero", kind="step", dev=d, v="zero", seed=seed, arbitrary=True))
+        out.append(Case(f"step-from-any-state:{d}:v=sym", kind="step", dev=d, v="sym", seed=seed, arbitrary=True))
     return out
 
 
@@ -134,7 +138,7 @@ def body_step(H, case):
     H.prove("fix_psi iff terminal_psi is not None", solver.operators.fix_psi == (v is not None))
     # arbitrary pre-state with psi = v on the terminals
     psi = [H.cplx(f"p{i}") for i in range(ns)]
-    if v is not None:
+    if v is not None and not case.arbitrary:
         for i in fixed:
             psi[i] = v if not isinstance(v, float) else complex(v)
     psi0 = H.array(psi) if H.mode == "sym" else np.array(psi, dtype=complex)
